@@ -273,6 +273,11 @@ func TestC12(t *testing.T) {
 		for i := 0; i < rounds; i++ {
 			stress(t, stats, int64(core.EnvInt("VERIF_SEED", 1))*1000+int64(i))
 		}
+		lonelyN := 2000
+		if core.Tier() == "thorough" {
+			lonelyN = 20000
+		}
+		lonely(t, stats, lonelyN)
 		races := 150
 		if core.Tier() == "thorough" {
 			races = 1500
@@ -495,6 +500,65 @@ func idleShutdown(t *testing.T, stats *core.Stats, i int) {
 		core.SaveFailure("last", map[string]any{"violation": msg})
 		t.Fatalf("VIOLATION C12 %s", msg)
 	}
+}
+
+// lonely: one client, one request at a time, on a server that is otherwise idle (and has been idle for several
+// signal timeouts before): production api + aio + sqlite store subsystem (batch size 10, its worker collects a batch
+// until it is flushed) + Loop. Nothing but the loop's own periodic wake-up comes to the rescue of a submission that
+// sits in a partially collected batch, so every single request must still be answered (here: within 3 s, the signal
+// timeout being 10 ms).
+func lonely(t *testing.T, stats *core.Stats, n int) {
+	m := metrics.New(prometheus.NewRegistry())
+	dir := core.Scratch("verif-c12-lonely-")
+	defer os.RemoveAll(dir)
+	ap := api.New(100, m)
+	ai := aio.New(100, m)
+	st, err := sqlite.New(ai, m, &sqlite.Config{Size: 100, BatchSize: 10, Path: filepath.Join(dir, "l.db"), TxTimeout: 10 * time.Second})
+	if err != nil {
+		t.Fatalf("harness: %v", err)
+	}
+	ai.AddSubsystem(st)
+	if err := ai.Start(); err != nil {
+		t.Fatalf("harness: %v", err)
+	}
+	cfg := &system.Config{CoroutineMaxSize: 100, SubmissionBatchSize: 100, CompletionBatchSize: 100, PromiseBatchSize: 1, ScheduleBatchSize: 1, TaskBatchSize: 1, SignalTimeout: 10 * time.Millisecond, TaskEnqueueDelay: time.Second}
+	sys := system.New(ap, ai, cfg, m)
+	sys.AddOnRequest(t_api.ReadPromise, coroutines.ReadPromise)
+	loopDone := make(chan struct{})
+	go func() { _ = sys.Loop(); close(loopDone) }()
+	time.Sleep(45 * time.Millisecond) // idle for several signal timeouts
+	late := 0
+	for i := 0; i < n; i++ {
+		if i%250 == 249 {
+			time.Sleep(25 * time.Millisecond) // idle again
+		}
+		done := make(chan struct{})
+		t0 := time.Now()
+		ap.EnqueueSQE(&bus.SQE[t_api.Request, t_api.Response]{Id: "lonely", Submission: &t_api.Request{Kind: t_api.ReadPromise, Tags: map[string]string{"id": fmt.Sprintf("l%d", i), "name": "ReadPromise"}, ReadPromise: &t_api.ReadPromiseRequest{Id: "nobody"}},
+			Callback: func(*t_api.Response, error) { close(done) }})
+		select {
+		case <-done:
+			if time.Since(t0) > 5*time.Millisecond {
+				late++
+			}
+		case <-time.After(3 * time.Second):
+			msg := fmt.Sprintf("request %d of a single sequential client on an otherwise idle server (sqlite store subsystem with batch size 10, signal timeout 10 ms) was accepted but not answered within 3 s", i)
+			core.SaveFailure("last", map[string]any{"violation": msg})
+			t.Fatalf("VIOLATION C12 %s", msg)
+		}
+		stats.Eval()
+	}
+	stats.ClassN("lonely-request", n)
+	stats.ClassN("lonely-request-answered-only-after-the-loop's-periodic-wake-up", late)
+	sys.Shutdown()
+	select {
+	case <-loopDone:
+	case <-time.After(20 * time.Second):
+		stats.Class("lonely-inconclusive:loop-did-not-return")
+		return
+	}
+	_ = ap.Stop()
+	_ = ai.Stop()
 }
 
 // shutdownRace aims at one window: a client's EnqueueSQE that overlaps Shutdown and the loop's last look at the
